@@ -14,7 +14,7 @@ from collections import Counter
 import numpy as np
 from .. import proto
 from ..proto import enc, hexs, unhex
-from ..engine import Finding, Timeout
+from ..engine import Finding, Timeout, with_timeout
 
 ID = 'C02'
 TITLE = 'join is the relational inner/cross join and xor the anti-join; both terminate'
@@ -22,7 +22,7 @@ STATEMENT = ('join returns, as a multiset of rows, exactly the pairs (l, r) whos
              'NaN = NaN), each carrying the key, every other column of both sides and same-named non-key columns combined by mode; with '
              'no key the cross product; xor returns exactly the rows of x whose key matches no row of y; both terminate and leave both '
              'operands unchanged')
-LEAN_FILES = ['Basic', 'Cmp', 'Sort', 'TableBasic', 'Join', 'JoinDriver', 'Tri', 'CmpLemmas', 'JoinLemmas', 'KeyEq', 'JoinCols', 'C02']
+LEAN_FILES = ['Basic', 'Cmp', 'Sort', 'Native', 'TableBasic', 'Join', 'JoinDriver', 'Tri', 'CmpLemmas', 'NativeLemmas', 'JoinLemmas', 'KeyEq', 'JoinCols', 'C02']
 RULE = ('distinct protocol lines (one join / xor call on a pair of tables, or one _listby call) on which the implementation returned a '
         'table / group list and at least one of the operands has 2 or more rows')
 TRUSTED = ['correspondence harness (pv.engine, pv.proto) and generators / reference join + xor (statement_check) of pv.props.c02',
@@ -786,6 +786,19 @@ def laws(rng, tier, ctx):
                 yield Finding('violation', case, 'x*y + x/y is not the left join: row %d of x has %d matching rows of y, occurs %d times '
                               'in x*y and %d times in x/y' % (i, m, inj[100 + i], inx[100 + i]))
                 break
+    # OUTSIDE the quantifier (keys are drawn from scalars): computed keys that are lists of DIFFERENT lengths.  pyg_base.sort orders them natively
+    # (lexicographic), the merge loop compares them with cmp (length first): the call loses pairs.  Recorded in the evidence, not a finding; the Lean
+    # side states it (C02.merge_over_native_order_loses_pair vs model_join_finds_pair, join_keys_native_agree for the keys of the quantifier).
+    try:
+        from pyg_base import dictable
+        f = lambda a: [3] if a == 1 else [1, 2]      # noqa: E731
+        x, y = dictable(a=[1, 2], v=[10, 20]), dictable(k=[[3]], u=[5])
+        j = with_timeout(lambda: x.join(y, f, 'k'), 5)
+        o = with_timeout(lambda: x.xor(y, f, 'k'), 5)
+        EXTRA['container_keys_of_unequal_length (outside the quantifier)'] = (
+            'join on the computed keys [3] / [1,2] against [[3]]: %d row(s) (the relational join has 1), xor keeps %d row(s) (the anti-join has 1)' % (len(j), len(o)))
+    except Exception as e:
+        EXTRA['container_keys_of_unequal_length (outside the quantifier)'] = 'probe raised %s' % type(e).__name__
     yield count
 
 
